@@ -273,6 +273,21 @@ theorem timed_is_async_with_timeout (w : World) (τ : Option Int) : timedCall w 
   | none => rfl
   | some t => rfl
 
+/-- **Every request gets its own deadline, counted from the instant it is issued** — however old the
+connection or a reused `timed` wrapper is: the fresh result of `async_request(timeout=τ)`, of a call of a
+`timed(proxy, τ)` wrapper made at any earlier time, and of `sync_request` with configured timeout `τ`
+expires at `issue instant + τ` (never for `None`/negative), is pending with an empty callback list, and
+its registry entry is live. -/
+theorem each_request_own_deadline (w : World) (τ : Option Int) :
+    (asyncRequest w τ).ar.ttl = Timeout.make w.now τ
+      ∧ (Timed.call w (Timed.make τ)).ar.ttl = Timeout.make w.now τ
+      ∧ (asyncRequest w τ).ar.isReady = false ∧ (asyncRequest w τ).ar.callbacks = []
+      ∧ (asyncRequest w τ).live = true ∧ (asyncRequest w τ).now = w.now
+      ∧ Timed.call w (Timed.make τ) = asyncRequest w τ := by
+  cases τ with
+  | none => exact ⟨rfl, rfl, rfl, rfl, rfl, rfl, rfl⟩
+  | some t => exact ⟨rfl, rfl, rfl, rfl, rfl, rfl, rfl⟩
+
 /-- so a synchronous request raises the timeout error no earlier than `τ` after it was issued, and exactly
 then unless the caller was busy serving a request -/
 theorem sync_timeout_exact (w : World) (τ : Option Int) (h : (syncRequest w τ).2 = .timeout) :
@@ -371,6 +386,15 @@ example : status (runs (World.init 0) [.setExpiry (some 2), .tick 1]) = .pending
 example : (syncRequest { World.init 0 with chan := [(5, .reply false 1)] } (some 2)).2 = .timeout
     ∧ (syncRequest { World.init 0 with chan := [(5, .reply false 1)] } (some 2)).1.now = 2
     ∧ (syncRequest { World.init 0 with chan := [(5, .reply false 1)] } none).2 = .value (some 1) := by
+  decide +kernel
+
+/-- a `timed(…, 3)` wrapper first used 5 ticks after it was made: the call at 5 has its deadline at 8, the reply
+at 6 is returned; the second call at 10 has its deadline at 13 and times out exactly then -/
+example :
+    (Timed.call { World.init 5 with chan := [(6, .reply false 7)] } (Timed.make (some 3))).ar.ttl = ⟨true, 8⟩
+    ∧ (value (Timed.call { World.init 5 with chan := [(6, .reply false 7)] } (Timed.make (some 3)))).2 = .value (some 7)
+    ∧ (value (Timed.call { World.init 10 with chan := [(20, .reply false 7)] } (Timed.make (some 3)))).2 = .timeout
+    ∧ (value (Timed.call { World.init 10 with chan := [(20, .reply false 7)] } (Timed.make (some 3)))).1.now = 13 := by
   decide +kernel
 
 /-- re-arming: expired at 1, re-armed, the reply at 3 is then accepted -/
